@@ -4,6 +4,15 @@ from fractions import Fraction
 import vf
 
 LEVEL = "proof"
+CLAIM = dict(cat="proof", design="§3 C17, Appendix A.6",
+   text="Coq theorems for ALL point coordinates in [1,2): the exact orientation and in-sphere predicates return Z.sgn of the integer determinant of the 52-bit mantissas, which has the sign of the real (homogeneous) determinant; "
+        "every intermediate stays below 2^162 resp. 2^272 so the fixed-width Boost integers are exact; any permutation of the 4/5 points multiplies the result by its parity (all 24/120 permutations); and FULL filter soundness "
+        "(Flocq): whenever the binary64 filter with the error bound written in the header decides, its answer is the exact sign, it never answers 0, hence the adaptive predicates return the exact real sign. "
+        "Tie: the real functions (with Boost.Multiprecision) and the extracted model are compared on random, exactly degenerate (lattice) and 1..1000-ulp perturbed inputs (exact sign, adaptive sign, whether the filter decided, "
+        "filter answer), plus an independent big-integer oracle on every real output.",
+   note="Trusted: Coq kernel, standard real/classical axioms and the PrimFloat/Uint63 specification axioms reported by Print Assumptions (through Flocq/Interval); extraction + OCaml driver for the correspondence. "
+        "Assumes the ISO build the project uses (no -ffast-math/FMA contraction: the proved expression is the one in the header, operation by operation); inputs in [1,2) are a caller contract.",
+   technique="Coq proof (integer determinants by ring/bounds, Flocq running-error analysis for the filter) + differential correspondence")
 ONE = 0x3FF << 52
 MANT = 1 << 52
 MASK = MANT - 1
